@@ -1,6 +1,7 @@
 import OmbottModel.Model.QsSpec
 import OmbottModel.Lemmas.QsScan
 import OmbottModel.Lemmas.QsDict
+import OmbottModel.Props.EnvCache
 /-!
 C18 — Query strings and urlencoded forms decode to exactly what was sent.
 Property theorems only; helper lemmas live in `Lemmas/{Utf8,QsQuote,QsScan,QsDict}.lean`.
@@ -135,3 +136,43 @@ example : unquote "%E9%80%e2%82%ac".toList = [repl, '€'] := by decide
 end NonVacuity
 
 end Ombott.Qs
+
+/-! ### the cache layer of the request object (general theorem in `Props/EnvCache.lean`) -/
+namespace Ombott.EnvCache
+
+/-- **the cache is never observable** (general statement; scope and residue in `Props/EnvCache.lean`) -/
+theorem c18_cache_unobservable (cfg : Cfg) (L : Lib) (w : World) (ops : List Op)
+    (hW : InvW cfg L w) (hs : Safe cfg L w ops) : run cfg L w ops = specRun cfg L w ops :=
+  cache_unobservable cfg L w ops hW hs
+
+/-- **`query` follows `QUERY_STRING`**: every read of `query` / `GET` is `parse_qsl` of the query
+string as it is at that moment on that request -/
+theorem c18_query_follows_query_string (cfg : Cfg) (L : Lib) (w : World) (ops : List Op) (hW : FreshW w)
+    (hw : ∀ op ∈ ops, opWithin [.query] (fun _ => true) op = true) :
+    run cfg L w ops = specRun cfg L w ops :=
+  query_follows_query_string cfg L w ops hW hw
+
+/-- **`params` follow both** the query string and the body: reads of `query`, `forms`, `POST`,
+`files`, `json`, `body`, `params` under assignments of `QUERY_STRING`, a new `wsgi.input` and any
+key but `CONTENT_TYPE` / `CONTENT_LENGTH` (pinned residue) answer what a brand-new request on the
+current environ answers -/
+theorem c18_params_follow_both (cfg : Cfg) (L : Lib) (w : World) (ops : List Op) (hW : FreshW w)
+    (hw : ∀ op ∈ ops, opWithin [.query, .params, .forms, .post, .files, .json, .body, .contentLength]
+      notFormFraming op = true) :
+    run cfg L w ops = specRun cfg L w ops :=
+  params_follow_both cfg L w ops hW hw
+
+/-- the dependency cover and the pinned residue, as C18 relies on them -/
+theorem c18_dependency_cover :
+    (∀ row ∈ Gen.ecProps, ∀ K ∈ row.reads, row.key.toList ∈ todelete K.toList ∨ (row.name, K) ∈ Gen.ecUncovered) ∧
+    Gen.ecUncovered.filter (fun p => !ecByDesign.contains p) = pinnedStale :=
+  ⟨dependency_cover, uncovered_pinned.1⟩
+
+section NonVacuity
+/-- the hypotheses of the theorems above are met by the request and library of `Props/EnvCache.lean` and this
+sequence (further instances, out-of-scope sequences and the witnesses of the pinned residue are there) -/
+example : FreshW exWorld ∧ InvW {} exLib exWorld := ⟨FreshW.ofB (by decide), (FreshW.ofB (by decide)).inv {} exLib⟩
+example : ∀ op ∈ [Op.read 0 .params, .setStr 0 kQS cs!"b=2", .read 0 .params, .setInput 0 { st := ⟨"n=5".toUTF8.toList, []⟩ }, .read 0 .params], opWithin [.query, .params, .forms, .post, .files, .json, .body, .contentLength] notFormFraming op = true := by decide
+end NonVacuity
+
+end Ombott.EnvCache
